@@ -155,6 +155,11 @@ class GaussianMatrixParameterConstraint(ParameterConstraint):
                 "Expected values and cov_mat to be of shapes (N, ), (N, N) but received shapes %s, %s instead!"
                 % (self._values.shape, _matrix_array.shape)
             )
+        if self._indices.shape != self._values.shape:
+            raise ValueError(
+                "Expected indices and values to be of the same shape (N, ) but received shapes %s, %s instead!"
+                % (self._indices.shape, self._values.shape)
+            )
         if matrix_type == "cov":
             pass
         elif matrix_type == "cor":
@@ -187,6 +192,10 @@ class GaussianMatrixParameterConstraint(ParameterConstraint):
             self._cor_mat = _matrix_array
             if uncertainties is None:
                 raise ValueError("If matrix_type is cor uncertainties must be specified!")
+            if np.shape(uncertainties) != self._values.shape:
+                raise ValueError(
+                    "Expected uncertainties to be of shape %s but received shape %s instead!" % (self._values.shape, np.shape(uncertainties))
+                )
             if relative:
                 self._uncertainties_abs = None
                 self._uncertainties_rel = np.array(uncertainties)
